@@ -251,6 +251,28 @@ func TestSeal(t *testing.T) {
 			}
 		}
 	}
+	// the AD length is a dimension of its own: every AD length 0..1100 (this covers every residue class mod 16 and
+	// mod 256 several times, e.g. 13+256k) for a few plaintext lengths, plus large ones
+	adPts := []int{1, 64}
+	if vutil.Thorough() {
+		adPts = []int{0, 1, 17, 64, 129, 300}
+	}
+	for _, p := range adPts {
+		for a := 0; a <= 1100; a++ {
+			if !okOrStop(sweep("adsweep", p, a, (p+a)%2 == 0, false)) {
+				return
+			}
+		}
+	}
+	for _, a := range []int{268, 269, 270, 524, 525, 526, 781, 1037, 4095, 4096, 4097, 4109, 65535, 65536, 65537, 65536 + 13} {
+		for _, p := range []int{0, 17, 129, 257} {
+			for _, x := range []bool{false, true} {
+				if !okOrStop(sweep("adlarge", p, a, x, p == 17)) {
+					return
+				}
+			}
+		}
+	}
 	// long messages and long AD
 	nlong := 150
 	if vutil.Thorough() {
